@@ -88,7 +88,7 @@ def read_graph(path):
                 k = lab.rfind('last = ')
                 assert k >= 0, lab
                 last[m.group(1)] = parse_value(lab[k + 7:])
-    roots = [n for n, v in last.items() if v == ('init',)]
+    roots = [n for n, v in last.items() if v[0] in ('init', 'init2')]
     return last, edges, roots
 
 
@@ -133,6 +133,7 @@ class Replayer:
     """Execute BDDSpec actions on a real manager through a `Trace`."""
 
     def __init__(self, tid, names, declared, seed=0, meta=None):
+        self.names = list(names)
         self.tr = Trace(tid, names, seed=seed, meta=meta)
         for nm in names[:declared]:
             self.tr.add_var(nm)
@@ -148,7 +149,17 @@ class Replayer:
         ret, exc = res
         if exc:
             raise RuntimeError('replay diverged: %s' % exc)
+        old = self.slot.get(k)
         self.slot[k] = ret
+        if old is not None:         # `u = op(u, v)`: release what the slot held
+            self.tr.decref(old)
+
+    def _build(self, k, models):
+        from harness.drivers.history import build_tt
+        tr = self.tr
+        tt = sum(1 << x for x in models)
+        self.put(k, tr.build(tt, lambda: build_tt(tr, self.names, tt),
+                             len(self.names)))
 
     def step(self, a):
         tr = self.tr
@@ -162,7 +173,14 @@ class Replayer:
     def _step(self, a):
         tr = self.tr
         op = a[0]
-        if op == 'var':
+        if op == 'init':
+            pass
+        elif op == 'init2':         # two operands built and held before the first step
+            self._build(1, a[1])
+            self._build(2, a[2])
+        elif op == 'build':
+            self._build(a[1], a[2])
+        elif op == 'var':
             self.put(a[1], tr.var(a[2]))
         elif op == 'ite':
             self.put(a[1], tr.ite(self.val(a[2]), self.val(a[3]),
@@ -223,8 +241,6 @@ def replay_paths(path, first_tid, action_paths, names, declared, seed):
             rp = Replayer(first_tid + i, names, declared, seed=seed,
                           meta=dict(driver='graph', actions=len(acts)))
             for a in acts:
-                if a == ('init',):
-                    continue
                 rp.step(a)
             f.write(rp.tr.dumps() + '\n')
             n_events += len(rp.tr.events)
